@@ -156,7 +156,7 @@ def is_reallike(v):
 
 
 def is_num(v):
-    return is_intlike(v) or is_reallike(v) or isinstance(v, bool)
+    return is_intlike(v) or is_reallike(v) or is_bool(v)
 
 
 def to_z3(v):
